@@ -180,8 +180,15 @@ def parse_kv(tokens):
 
 
 def run_worker(binary, args, seed, first, stride, seconds, outdir, tag, count=None):
-    """Runs one worker process to completion, restarting it after a crash. Returns a Batch."""
+    """Runs one worker process to completion, restarting it after a crash. Returns a Batch.
+    An argument pair "--cold N" (consumed here) makes every worker process exit after N runs and be replaced by a fresh
+    one: the first runs of a process are the only ones in which threads can race for lazily initialised state."""
     b = Batch()
+    cold = None
+    if "--cold" in args:
+        i = args.index("--cold")
+        cold = int(args[i + 1])
+        args = args[:i] + args[i + 2:]
     deadline = time.time() + seconds
     nxt = first
     errf = os.path.join(outdir, f"{tag}.err")
@@ -194,6 +201,8 @@ def run_worker(binary, args, seed, first, stride, seconds, outdir, tag, count=No
                                             "--outdir", outdir]
         if count is not None:
             cmd += ["--count", str(count)]
+        elif cold is not None:
+            cmd += ["--count", str(cold), "--seconds", f"{left:.2f}"]
         else:
             cmd += ["--seconds", f"{left:.2f}"]
         with open(errf, "ab") as ef:
@@ -232,7 +241,7 @@ def run_worker(binary, args, seed, first, stride, seconds, outdir, tag, count=No
                     if tk[3] == "VIOL":
                         b.viol.append(dict(run=run, hash=tk[2], cls=kv.get("class", "?"), sig=kv.get("sig", ""),
                                            stable=kv.get("stable") == "1", file=kv.get("file"), detail=detail or "",
-                                           binary=binary, args=args, seed=seed))
+                                           binary=binary, args=args, seed=seed, cold=cold is not None))
                     last_start = None
                     detail = None
                 elif line.startswith("DETAIL "):
@@ -254,6 +263,9 @@ def run_worker(binary, args, seed, first, stride, seconds, outdir, tag, count=No
                                   err=f"worker printed nothing for {WORKER_STALL_S}s (last run started: {last_start}) and was killed\n" + tail(errf)))
             break
         if done and rc == 0:
+            if cold is not None and nruns > 0 and time.time() < deadline - 0.2:
+                nxt += nruns * stride   # next fresh process continues where this one stopped
+                continue
             break
         # the worker died inside run `last_start` (sanitizer abort, signal, watchdog)
         if last_start is None:
@@ -478,6 +490,8 @@ def configs_for(prop, tier):
                 ("tsan", "e1", ["--mode", "a", "--fault", "ta", "--maxthreads", mt], 5 * t, "c13_ta_tsan"),
                 ("asan", "e1", ["--mode", "a", "--fault", "stall", "--maxthreads", mt], 8 * t, "c13_stall_asan"),
                 ("asan", "e1", ["--mode", "a", "--fault", "starve", "--maxthreads", mt, "--maxviol", "1000000"], 5 * t, "c13_starve_asan"),
+                ("tsan", "e1", ["--mode", "a", "--fault", "none", "--maxthreads", mt, "--mix", "api", "--cold", "2"], 8 * t, "c13_cold_tsan"),
+                ("asan", "e1", ["--mode", "a", "--fault", "none", "--maxthreads", mt, "--mix", "api", "--cold", "2"], 5 * t, "c13_cold_asan"),
                 ("tsan", "e1", ["--mode", "b", "--maxthreads", mt], 8 * t, "c13_b_tsan"),
                 ("asan", "e1", ["--mode", "b", "--maxthreads", mt], 8 * t, "c13_b_asan")]
     raise SystemExit(f"no configuration for {prop}")
@@ -561,7 +575,16 @@ def handle_violations(prop, viols, crashes, builds, known, outdir):
         seen.add(key)
         log(f"[detect] {prop} class={v['cls']} sig={v['sig']} run={v['run']} :: {v['detail'][:600]}")
         # gate (i): same plan, same process (not meaningful for TSan reports, which the runtime may not repeat)
-        if not v["stable"] and v["cls"] not in ("data-race",):
+        if v.get("cold"):
+            # found in one of the first runs of a fresh process: re-running the plan in the same (now warm) process cannot
+            # reproduce a race for lazily initialised state; gate (i) is replaced by a second fresh-process replay below
+            ra, rb = replay(v["binary"], v["file"]), replay(v["binary"], v["file"])
+            if not (ra["verdict"] == "violation" and rb["verdict"] == "violation" and ra["cls"] == rb["cls"]):
+                log(f"HARNESS-FAULT {prop}: cold-process detection at run {v['run']} did not reproduce in two fresh processes "
+                    f"({ra['verdict']}/{ra['cls']}, {rb['verdict']}/{rb['cls']})")
+                rc = max(rc, 2)
+                continue
+        elif not v["stable"] and v["cls"] not in ("data-race",):
             log(f"HARNESS-FAULT {prop}: detection at run {v['run']} did not reproduce in the same process")
             rc = max(rc, 2)
             continue
